@@ -294,7 +294,7 @@ def pairwise_cases(seed):
     """Deviation 2: every pair of valid values of two different options, everything else at its
     default (explicit pairs rather than a covering array, so a failure is attributable to the pair)."""
     out = []
-    skip = ("plotting", "plotting+class", "flow_proposal_class", "augment_dims", "generate_augment", "marginalise_augment", "model", "stopping_pairs", "run.redraw_samples", "run.compute_initial_posterior", "bootstrap", "train_final_flow", "prior_sampling", "n_initial<min_samples")
+    skip = ("plotting", "plotting+class", "flow_proposal_class", "augment_dims", "generate_augment", "marginalise_augment", "model", "stopping_pairs", "run.redraw_samples", "run.compute_initial_posterior", "bootstrap", "train_final_flow", "prior_sampling", "n_initial<min_samples", "flow_config<deprecated-layout>")
     for kind, options in (("std", STD_OPTIONS), ("ins", INS_OPTIONS)):
         vals = []
         for name, values in options:
